@@ -70,8 +70,8 @@ func longToken(n int) (plain string, macro string) {
 type c17Built struct {
 	World    *World
 	Argv     []string
-	Stdin    string // world path
-	Target   string // file rewritten (rewriters) or ""
+	Stdin    string   // world path
+	Target   string   // file rewritten (rewriters) or ""
 	Words    []string // generate: every entry that must match the output (plain form)
 	Lines    []string // rewriters: expected lines of the target after the command, plain form ("\x00" prefix = must merely be present unchanged)
 	LongLine string
@@ -374,9 +374,14 @@ func init() {
 		ID: "C17", Level: "fault_enumeration",
 		Rule: "cells = carrier/command in {entry in a rule file (generate, generate -, format, update), entry inside an assemble block, comment line (generate, format), entry in an include file, include with suffix pairs, include-except include file, exclude file, test payload line (renumber-tests), rule line in a .conf (update-copyright), comment line in the rules file (update)} x line length in {1, 100, 4096, 65534, 65535, 65536, 65537, 70000, 262144, 1048576 (regex entries capped at 262144; the exclude-file line is only compared, never compiled, and goes up to 1 MiB)} x position {first, middle, last, the only line} x final newline {yes, no}; every cell is enumerated in every run with seeded short lines around the long one and a seeded schedule. Oracle: exit != 0 (loud), or complete: generate / update - every entry of the file, before and after the long line and the long one itself, is matched by the produced regex (and entries listed after the long line of an exclude file stay excluded); rewriters - the rewritten file has every line of a complete rewrite, the long line byte-identical. Non-trivial = the line is at least 65534 bytes long; distinct = distinct cells.",
 		Gen:  genC17, Eval: evalC17,
-		Cells:         c17Cells,
-		ChecksPerCell: func(tier string) int { if tier == "thorough" { return 8 }; return 3 },
-		Timeout:       90 * time.Second,
+		Cells: c17Cells,
+		ChecksPerCell: func(tier string) int {
+			if tier == "thorough" {
+				return 8
+			}
+			return 3
+		},
+		Timeout: 90 * time.Second,
 		Assumptions: []string{
 			"entries are literal lower-case words, so membership in the produced regex is decided with Go's regexp",
 			"regex entries are capped at 262144 bytes; 1 MiB lines are used on comment, payload and rule lines",
